@@ -40,6 +40,7 @@ pub fn strategy() -> impl Strategy<Value = Case> {
         1 => any::<u16>().prop_map(Op::BulkCreate),
         2 => Just(Op::PackRefs),
         1 => any::<u16>().prop_map(Op::CaseVariant),
+        3 => any::<u16>().prop_map(Op::ResetSoft),
     ];
     let step = prop_oneof![
         4 => repo.prop_map(Step::Repo),
@@ -51,7 +52,23 @@ pub fn strategy() -> impl Strategy<Value = Case> {
         3 => Just(Step::Analyze),
         2 => Just(Step::Run),
     ];
-    (any::<bool>(), vec(step, 0..20)).prop_map(|(ignore_out, steps)| Case { ignore_out, steps })
+    (any::<bool>(), vec(step, 0..20), proptest::option::weighted(0.3, (any::<u16>(), any::<u16>(), any::<u16>(), any::<bool>()))).prop_map(|(ignore_out, mut steps, rewind)| {
+        // a third of the histories contain the block "commit, update, HEAD moves back to an earlier
+        // commit, update again" (bisecting, checking out a tag) at a generated place
+        if let Some((pos, k, f, pending)) = rewind {
+            let at = pick(pos, steps.len() + 1);
+            let block = vec![
+                Step::Repo(Op::Edit(f)),
+                Step::Repo(Op::CommitAll),
+                Step::Update(0, 0, false),
+                Step::Repo(Op::ResetSoft(k)),
+                Step::Update(0, 0, pending),
+                Step::Show,
+            ];
+            steps.splice(at..at, block);
+        }
+        Case { ignore_out, steps }
+    })
 }
 
 pub fn check(case: &Case, w: usize) -> CheckResult {
